@@ -7,6 +7,7 @@ errors (KeyError, RuntimeError ...) are violations by themselves."""
 import os
 import shutil
 import tempfile
+import time
 
 from vlib import core, gen, fixture, sched, linz
 
@@ -19,7 +20,7 @@ RULE = ("op sets: 2-3 threads x 1-3 operations from {safe/unsafe register, remov
         "non-trivial = the schedule contains at least one context switch inside an operation")
 ASSUMPTIONS = ["granularity is the source line (CPython may also switch between bytecodes of a line)",
                "for SqlStorage each storage call is atomic for the scheduler (a thread is never parked inside an open sqlite transaction)"]
-REQUIRED_REACH = ["socket_histories", "schedules_explored", "histories_linearizable", "concurrent_safe_registers", "concurrent_removes", "sql_schedules", "sql_stress_entries_read", "autoclean_histories"]
+REQUIRED_REACH = ["socket_histories", "schedules_explored", "histories_linearizable", "concurrent_safe_registers", "concurrent_removes", "sql_schedules", "sql_stress_entries_read", "autoclean_histories", "snapshot_histories_daemon", "snapshot_histories_inprocess"]
 SHARD_TIMEOUT = {"quick": 240, "thorough": 3000}
 NSNAME = "Pyro.NameServer"
 URIS = ["PYRO:o1@h:1", "PYRO:o2@h:2", "PYRO:o3@h:3"]
@@ -258,6 +259,175 @@ def autoclean_stress(P, rec, r, nhist):
             rec.count("autoclean_histories")
     finally:
         N.AutoCleaner.override_autoclean_min, N.AutoCleaner.loop_delay, N.AutoCleaner.max_unreachable_time, P.config.NS_AUTOCLEAN = saved
+
+
+def snapshot_stress(P, rec, r, nhist, workdir, via_daemon):
+    """(e) every listing is a state that existed. ONE writer performs a known sequence of writes w1, w2, ... (set_metadata with the unique version
+    k on tracked names at the front, in the middle and at the end of a large registry; register/remove of a toggling name), so the states the name
+    server goes through are exactly the prefixes of that sequence. Readers take unfiltered, prefix and regex listings with metadata; a listing must
+    equal the state after some prefix k, and k must lie between the number of writes COMPLETED before the listing was asked for and the number of
+    writes STARTED when the reader finished looking at it (the reader holds on to the result for a moment before it looks: what it was handed
+    must not change any more). Run in-process (memory and sqlite) and through a real name-server daemon (the reply is serialized after list() has
+    returned, outside every lock)."""
+    import threading
+    N = P.nameserver
+    tracked = ["aaa.front", "mmm.middle", "zzz.tail"]
+    toggler = "mmm.toggle"
+    for h in range(nhist):
+        if rec.should_stop(6):
+            break
+        backend = ("memory", "sql")[h % 2]
+        nbulk = r.choice([60, 400]) if not via_daemon else (r.choice([1500, 3000]) if backend == "memory" else 300)
+        storage = N.MemoryStorage() if backend == "memory" else N.SqlStorage(os.path.join(workdir, "snap-%d-%d.sqlite" % (via_daemon, h)))
+        d = t = None
+        if via_daemon:
+            P.config.SERVERTYPE, P.config.POLLTIMEOUT, P.config.COMMTIMEOUT, P.config.THREADPOOL_SIZE = "thread", 0.5, 0.0, 16
+            d = N.NameServerDaemon(host="127.0.0.1", port=0, storage=storage if backend == "memory" else "sql:" + storage.dbfile)
+            if backend == "sql":
+                storage.close()
+            ns_direct = d.nameserver
+            t = threading.Thread(target=d.requestLoop, daemon=True)
+            t.start()
+            nsuri = d.uriFor(NSNAME)
+
+            def handle():
+                px = P.client.Proxy(nsuri)
+                px._pyroTimeout = 30.0
+                return px
+        else:
+            ns_direct = N.NameServer(storage)
+
+            def handle():
+                return ns_direct
+        # the registry: tracked names sorted among bulk names (dict / sql order = insertion order)
+        ns_direct.register(tracked[0], "PYRO:t@h:1", metadata={"v0"})
+        for i in range(nbulk // 2):
+            ns_direct.register("bulk.%05d" % i, "PYRO:b%d@h:1" % i, metadata={"bulk", "n%d" % i})
+        ns_direct.register(tracked[1], "PYRO:t@h:1", metadata={"v0"})
+        for i in range(nbulk // 2, nbulk):
+            ns_direct.register("bulk.%05d" % i, "PYRO:b%d@h:1" % i, metadata={"bulk", "n%d" % i})
+        ns_direct.register(tracked[2], "PYRO:t@h:1", metadata={"v0"})
+        nwrites = 400 if not via_daemon else 4000
+        # the write sequence is fixed in advance: write k (1-based) = plan[k-1]
+        plan = []
+        for k in range(1, nwrites + 1):
+            j = k % 5
+            plan.append(("meta", tracked[(0, 2, 1)[j]]) if j < 3 else (("reg", toggler) if j == 3 else ("rem", toggler)))
+        started, completed = [0], [0]
+        errs, bad, nlist = [], [], [0]
+        stop = threading.Event()
+
+        # states[k] = the tracked part of the map after write k
+        states = [dict({n: 0 for n in tracked})]
+        for k in range(1, nwrites + 1):
+            st = dict(states[-1])
+            kind, n = plan[k - 1]
+            if kind == "rem":
+                st.pop(n, None)
+            else:
+                st[n] = k
+            states.append(st)
+
+        def writer():
+            w = handle()
+            try:
+                for k in range(1, nwrites + 1):
+                    if stop.is_set():
+                        break
+                    kind, n = plan[k - 1]
+                    started[0] = k
+                    if kind == "meta":
+                        w.set_metadata(n, {"v%d" % k})
+                    elif kind == "reg":
+                        w.register(n, "PYRO:t@h:1", safe=False, metadata={"v%d" % k})
+                    else:
+                        w.remove(n)
+                    completed[0] = k
+            except Exception as x:
+                errs.append("writer: %s: %r" % (type(x).__name__, x))
+            finally:
+                stop.set()
+                if via_daemon:
+                    w._pyroRelease()
+
+        def reader(sd):
+            rr = gen.rng(sd, "snap")
+            q = handle()
+            try:
+                while not stop.is_set() and not bad:
+                    how = rr.choice(["all", "all", "regex-all", "regex", "prefix"])
+                    c0 = completed[0]
+                    scope = tracked + [toggler]
+                    if how == "all":
+                        res = q.list(return_metadata=True)
+                    elif how == "regex-all":
+                        res = q.list(regex=".", return_metadata=True)
+                    elif how == "regex":
+                        res = q.list(regex=r"(aaa|mmm|zzz)\.", return_metadata=True)
+                    else:
+                        res = q.list(prefix="mmm.", return_metadata=True)
+                        scope = [tracked[1], toggler]
+                    s1 = min(started[0], nwrites)
+                    time.sleep(rr.choice([0, 0.0005, 0.002]))      # the caller holds on to what it was handed before looking at it
+                    seen = {}
+                    for n in scope:
+                        if n in res:
+                            m = sorted(res[n][1] or ())
+                            seen[n] = int(m[0][1:]) if len(m) == 1 and m[0][:1] == "v" and m[0][1:].isdigit() else repr(m)
+                    nlist[0] += 1
+
+                    def matches(k):
+                        return {n: v for n, v in states[k].items() if n in scope} == seen
+                    if any(matches(k) for k in range(c0, s1 + 1)):
+                        continue
+                    older = [k for k in range(0, c0) if matches(k)]
+                    newer = [k for k in range(s1 + 1, nwrites + 1) if matches(k)]
+                    if older:
+                        bad.append("stale: a %s listing shows %r, the state after write %d, although %d writes had completed before the listing was asked for" % (how, seen, older[-1], c0))
+                    elif newer:
+                        bad.append("changed-after-return: a %s listing shows %r, the state after write %d, but only %d writes had started when the listing returned (it had been asked for after write %d)" % (how, seen, newer[0], s1, c0))
+                    else:
+                        bad.append("torn: a %s listing shows %r: no prefix of the single writer's sequence of writes produces that state (writes completed before the call: %d, started when the result was read: %d)" % (how, seen, c0, s1))
+            except Exception as x:
+                errs.append("reader: %s: %r" % (type(x).__name__, x))
+            finally:
+                if via_daemon:
+                    q._pyroRelease()
+        wt = threading.Thread(target=writer, daemon=True)
+        rs = [threading.Thread(target=reader, args=(r.getrandbits(30),), daemon=True) for _ in range(2)]
+        t0 = time.time()
+        for x in rs + [wt]:
+            x.start()
+        budget = 1.5 if not via_daemon else 4.0
+        while wt.is_alive() and time.time() - t0 < budget and not bad and not errs:
+            time.sleep(0.02)
+        stop.set()
+        wt.join(60)
+        for x in rs:
+            x.join(60)
+        hung = wt.is_alive() or any(x.is_alive() for x in rs)
+        if via_daemon:
+            d.shutdown()
+            t.join(10)
+            d.close()
+        else:
+            ns_direct.storage.close()
+        rec.case(("snapshot", via_daemon, backend, rec.seed, h), nontrivial=True, sample={"snapshot_listings": nlist[0], "writes": completed[0], "backend": backend, "via_daemon": via_daemon, "registry_size": nbulk + 3} if h < 2 else None)
+        if hung:
+            rec.inconc("snapshot stress history did not complete")
+            continue
+        pay = None
+        if errs:
+            rec.violation("internal-error:snapshot-stress", "%s back-end%s: an operation failed while one client wrote and two listed: %s" % (backend, " through a daemon" if via_daemon else "", errs[0]), pay)
+            continue
+        if bad:
+            rec.violation("listing-never-existed:" + bad[0].split(":")[0], "%s back-end%s, registry of %d names: %s" % (backend, " through a daemon" if via_daemon else "", nbulk + 3, bad[0]), pay)
+            continue
+        if nlist[0] == 0 or completed[0] < 6:
+            rec.inconc("snapshot stress: too little happened (%d listings, %d writes)" % (nlist[0], completed[0]))
+            continue
+        rec.count("snapshot_listings_checked", nlist[0])
+        rec.count("snapshot_histories_daemon" if via_daemon else "snapshot_histories_inprocess")
 
 
 def sql_stress(P, rec, r, nhist, workdir):
@@ -569,6 +739,8 @@ def plan(tier, seed):
         shards.append({"i": 200 + i, "backend": "daemon", "histories": 25 if tier == "quick" else 300, "inject": i % 2 == 0})
     for i in range(1 if tier == "quick" else 4):
         shards.append({"i": 300 + i, "backend": "sqlstress", "histories": 6 if tier == "quick" else 80})
+    for i in range(1 if tier == "quick" else 6):
+        shards.append({"i": 400 + i, "backend": "snapshot", "histories": 6 if tier == "quick" else 40})
     for i in range(n):
         shards.append({"i": i, "nshards": n, "backend": "memory", "opsets": 5 if tier == "quick" else 40, "bound": 1 if tier == "quick" else 2,
                        "max_runs": 120 if tier == "quick" else 3000, "nrandom": 15 if tier == "quick" else 300, "npct": 10 if tier == "quick" else 150})
@@ -591,6 +763,10 @@ def run_shard(shard, rec):
         if shard["backend"] == "sqlstress":
             sql_stress(P, rec, r, shard["histories"], workdir)
             autoclean_stress(P, rec, r, max(3, shard["histories"] // 2))
+            return
+        if shard["backend"] == "snapshot":
+            snapshot_stress(P, rec, r, shard["histories"], workdir, False)
+            snapshot_stress(P, rec, r, max(2, shard["histories"] // 3), workdir, True)
             return
         if shard["backend"] == "memory":
             rec.count("sql_schedules")
